@@ -1,10 +1,6 @@
 // replay for property C06, harness construction::features::capacity::verif_kani_proofs::c06_cap_kernel_single_dim (crate vrp-core, proof module capacity)
 // failed: assertion failed: actual == expected @ capacity_proofs.rs:70
 // run: /verif/check --replay /verif/replays/C06/c06_cap_kernel_single_dim.rs
-/// Test generated for harness `construction::features::capacity::verif_kani_proofs::c06_cap_kernel_single_dim` 
-///
-/// Check for `cover`: "accepted"
-
 #[test]
 fn kani_concrete_playback_c06_cap_kernel_single_dim_2567809127075630156() {
     let concrete_vals: Vec<Vec<u8>> = vec![
@@ -36,10 +32,6 @@ fn kani_concrete_playback_c06_cap_kernel_single_dim_2567809127075630156() {
     kani::concrete_playback_run(concrete_vals, c06_cap_kernel_single_dim);
 }
 
-/// Test generated for harness `construction::features::capacity::verif_kani_proofs::c06_cap_kernel_single_dim` 
-///
-/// Check for `cover`: "rejected-stopped"
-
 #[test]
 fn kani_concrete_playback_c06_cap_kernel_single_dim_11315683305282844155() {
     let concrete_vals: Vec<Vec<u8>> = vec![
@@ -70,10 +62,6 @@ fn kani_concrete_playback_c06_cap_kernel_single_dim_11315683305282844155() {
     ];
     kani::concrete_playback_run(concrete_vals, c06_cap_kernel_single_dim);
 }
-
-/// Test generated for harness `construction::features::capacity::verif_kani_proofs::c06_cap_kernel_single_dim` 
-///
-/// Check for `cover`: "rejected-continue"
 
 #[test]
 fn kani_concrete_playback_c06_cap_kernel_single_dim_11576661028084119404() {
